@@ -116,7 +116,7 @@ identifiers**, on the compiler model -/
 theorem insert_twin_nodes (md : Bool) (na nt : List Str) (pre post rest : List Event) (r r₁ : Row)
     (he : EntryRow r₁) (hns : noStartL rest = true) (hnn : noNamesL rest = true)
     (hid : okIdsL (pre ++ [.insert r (.row r₁ :: rest)] ++ post) = true)
-    (htop : ∀ s₀, (steps pre).run (initSt na nt) = .ok ((), s₀) → s₀.stack.length = 1)
+    (htop : md = false → ∀ s₀, (steps pre).run (initSt na nt) = .ok ((), s₀) → s₀.stack.length = 1)
     (F : List Str) (hFr : md = false → (r.rowId = [] ∨ r.rowId ∈ F))
     (hPL : md = true → ∀ s₀ o₂ a₂, (steps pre).run (initSt na nt) = .ok ((), s₀) →
       (openGroup r.edges false).run s₀ = .ok ((), o₂) →
@@ -129,7 +129,8 @@ theorem insert_twin_nodes (md : Bool) (na nt : List Str) (pre post rest : List E
       (openGroup r.edges false).run s₀ = .ok ((), o₂) →
       (steps (.row (retargetRow r₁) :: rest)).run o₂ = .ok ((), b₂) →
       ∀ x, x ≠ [] → lookupIn b₂.names x = lookupIn s₀.names x)
-    (hav : avoids F (!md) 0 post = true)
+    (havA : md = false → avoids F true 0 post = true)
+    (havB : md = true → avoidsOpen F post = true)
     {o₁ o₂ : Out}
     (h₁ : compile na nt (pre ++ [.insert r (.row r₁ :: rest)] ++ post) = .ok o₁)
     (h₂ : compile na nt (pre ++ twin r (.row r₁ :: rest) ++ post) = .ok o₂) :
@@ -155,7 +156,13 @@ theorem insert_twin_nodes (md : Bool) (na nt : List Str) (pre post rest : List E
   have hg : Good na nt s₀ := good_run hid_pre hp₁
   have ha0 : AInv flg s₀ := (ainv_steps (ainv_init flg na nt) pre hid_pre hp₁).1
   have hids0 := allIds_ok ha0 hg.dex
-  have hstk : s₀.stack = [0] := final_stack (final_binv hp₁) (htop s₀ hp₁)
+  have hbinv := final_binv hp₁
+  obtain ⟨h₀, Stk, hS⟩ : ∃ h₀ Stk, s₀.stack = h₀ :: Stk := by
+    have := hbinv.st.last
+    cases hst : s₀.stack with
+    | nil => rw [hst] at this; cases this
+    | cons a l => exact ⟨a, l, rfl⟩
+  have hstkA : md = false → s₀.stack = [0] := fun hm => final_stack hbinv (htop hm s₀ hp₁)
   -- the twin's begin_block
   obtain ⟨ps, hps, ho⟩ := wp_of_run (openGroup_twin s₀ (fun b hb => hg.sb.lt hb) r.edges) hO₂
   subst ho
@@ -227,7 +234,7 @@ theorem insert_twin_nodes (md : Bool) (na nt : List Str) (pre post rest : List E
   have hb1stk : b₁.stack = [s₀.groups.size] := by
     rcases hSR.2.tl with h' | ⟨_, h'⟩
     · have h'' : s₀.stack = [] := h'
-      rw [hstk] at h''; cases h''
+      rw [hS] at h''; cases h''
     · have h'' : b₁.stack.getLast? = some s₀.groups.size := h'
       cases hb : b₁.stack with
       | nil => rw [hb] at hlen; cases hlen
@@ -288,17 +295,18 @@ theorem insert_twin_nodes (md : Bool) (na nt : List Str) (pre post rest : List E
     (fun e src s' h => groupOfEdge_valid hg h) (dropTrivial r.edges) ps hps _ _ hAE hSL () e₂ () x₁ hE₂ hEd₁
   -- the twin's end_block
   obtain ⟨bb, cc, rr, hbst, hApp₂⟩ := closeGroup_run hC₂
-  have hb2stk : b₂.stack = [s₀.groups.size, 0] := by
+  have hb2stk : b₂.stack = s₀.groups.size :: s₀.stack := by
     have e : b₂.stack = b₁.stack.map (shiftFrom (s₀.groups.size + 1) (e₂.groups.size - (s₀.groups.size + 1))) ++
         s₀.stack := hSR.2.stack
-    rw [hb1stk, hstk] at e
+    rw [hb1stk] at e
     rw [e]
-    show [shiftFrom _ _ _] ++ [0] = _
+    show [shiftFrom _ _ _] ++ s₀.stack = _
     rw [shiftFrom_lt (by omega)]; rfl
-  rw [hb2stk] at hbst
+  rw [hb2stk, hS] at hbst
   injection hbst with hbb hbst
   injection hbst with hcc hrr
   subst hbb; subst hcc; subst hrr
+  rw [← hS] at hApp₂
   -- the state after the insert row
   have hid_ins : okIdsL [.insert r (.row r₁ :: rest)] = true := by
     simpa [okIdsL, Event.okIds] using hid_body
@@ -306,25 +314,32 @@ theorem insert_twin_nodes (md : Bool) (na nt : List Str) (pre post rest : List E
   have hgz : Good na nt z₁ := (good_steps hg _ hid_ins hrun_ins).1
   have haz : AInv flg z₁ := (ainv_steps ha0 _ hid_ins hrun_ins).1
   obtain ⟨b0, rest0, cs0, hxst, hxg, hz₁⟩ := appendGroup_run hApp₁
-  have hx1stk : x₁.stack = [0] := by rw [hsx.1]; exact hstk
-  rw [hx1stk] at hxst
+  have hx1stk : x₁.stack = s₀.stack := hsx.1
+  rw [hx1stk, hS] at hxst
   injection hxst with hb0 _
   subst hb0
   have hzn : z₁.nodes = x₁.nodes := by rw [hz₁]
   have hznx : z₁.next = x₁.next := by rw [hz₁]
   have hzgs : z₁.groups.size = x₁.groups.size := by rw [hz₁]; simp
-  have hzg : ∀ j, j ≠ 0 → z₁.groups[j]? = x₁.groups[j]? := by
+  have hzg : ∀ j, j ≠ h₀ → z₁.groups[j]? = x₁.groups[j]? := by
     intro j hj
     rw [hz₁]
-    show (x₁.groups.setIfInBounds 0 _)[j]? = _
+    show (x₁.groups.setIfInBounds h₀ _)[j]? = _
     rw [Array.getElem?_setIfInBounds, if_neg (Ne.symm hj)]
-  have hzg0 : z₁.groups[0]? = some (.block (cs0 ++ [s₀.groups.size])) := by
+  have hzg0 : z₁.groups[h₀]? = some (.block (cs0 ++ [s₀.groups.size])) := by
     rw [hz₁]
-    show (x₁.groups.setIfInBounds 0 _)[0]? = _
+    show (x₁.groups.setIfInBounds h₀ _)[h₀]? = _
     rw [Array.getElem?_setIfInBounds, if_pos rfl, if_pos (Array.getElem?_eq_some_iff.mp hxg).1]
+  have hra0x : ∀ (j : Nat) (g : Grp), j ≠ 0 → x₁.groups[j]? = some g → ∀ x ∈ grefs g, x ≠ 0 := by
+    intro j g hj0 hj x hx
+    by_cases jh : j = h₀
+    · subst jh
+      rw [hxg] at hj; injection hj with hj; subst hj
+      exact hgz.ra j _ hj0 hzg0 x (by simp only [grefs] at hx ⊢; exact List.mem_append_left _ hx)
+    · exact hgz.ra j g hj0 (by rw [hzg j jh]; exact hj) x hx
   have hs := sizes_of hSR.1 hAE' hB1.next fe7 hB1.nsz fe8 fe9 hB1.gsz
   have haB1 := haB.1
-  have hAF := asimF_glue hSR.1 hAE' hs (y₂ := { b₂ with stack := [0] }) rfl
+  have hAF := asimF_glue hSR.1 hAE' hs (y₂ := { b₂ with stack := s₀.stack }) rfl
     (by
       intro j hj1 hj2
       show ((e₂.groups.push _).setIfInBounds s₀.groups.size _)[j]? = _
@@ -336,10 +351,10 @@ theorem insert_twin_nodes (md : Bool) (na nt : List Str) (pre post rest : List E
       rw [hznx] at this; exact this)
     (by
       intro j g hj
-      by_cases j0 : j = 0
+      by_cases j0 : j = h₀
       · subst j0
         rw [hxg] at hj; injection hj with hj; subst hj
-        have := hgz.wf 0 _ hzg0
+        have := hgz.wf j _ hzg0
         refine ⟨by intro i hi; simp [gnodes] at hi, fun x hx => ?_⟩
         have := this.2 x (by simp only [grefs] at hx ⊢; exact List.mem_append_left _ hx)
         rw [hzgs] at this; exact this
@@ -348,7 +363,7 @@ theorem insert_twin_nodes (md : Bool) (na nt : List Str) (pre post rest : List E
     (fun i n hn => by
       have := hgz.dex i n (by rw [hzn]; exact hn)
       rw [hznx] at this; exact this)
-    (fun j g hj0 hj => hgz.ra j g hj0 (by rw [hzg j hj0]; exact hj))
+    hra0x
   -- the scopes after the block correspond
   have hF₁' : (step (.row r₁)).run (enterSt s₀) = .ok ((), insA s₀ r₁ n' (k0' + k1')) := by
     unfold step; exact hF₁
@@ -356,8 +371,6 @@ theorem insert_twin_nodes (md : Bool) (na nt : List Str) (pre post rest : List E
     unfold step; exact hF₂
   have hxr : x₁.rowIds = s₀.rowIds := hsx.2.1
   have hxn : x₁.names = s₀.names := hsx.2.2
-  have hra0x : ∀ (j : Nat) (g : Grp), j ≠ 0 → x₁.groups[j]? = some g → ∀ x ∈ grefs g, x ≠ 0 :=
-    fun j g hj0 hj => hgz.ra j g hj0 (by rw [hzg j hj0]; exact hj)
   -- the begin row of the twin block, kept as its first child
   have hgxb : b₂.groups[s₀.groups.size + 1]? = some (.noop ps none) := by
     rw [hSR.1.fr2g (s₀.groups.size + 1) ?_]
@@ -370,7 +383,7 @@ theorem insert_twin_nodes (md : Bool) (na nt : List Str) (pre post rest : List E
       unfold shiftFrom at e'
       split at e' <;> omega
   -- open mode: it is inert
-  have hin : md = true → Inert (s₀.groups.size + 1) { b₂ with stack := [0] } := by
+  have hin : md = true → Inert (s₀.groups.size + 1) { b₂ with stack := s₀.stack } := by
     intro hmd
     obtain ⟨ps', hgx', hps'⟩ := hPL hmd s₀ _ _ hp₁ hO₂ hF₂'
     have e0 : (twA s₀ e₂ r₁).groups[s₀.groups.size + 1]? = some (.noop ps none) := by
@@ -411,25 +424,27 @@ theorem insert_twin_nodes (md : Bool) (na nt : List Str) (pre post rest : List E
         have e' : shiftFrom (s₀.nodes.size + 1) (e₂.nodes.size - (s₀.nodes.size + 1)) j = i := e
         unfold shiftFrom at e'
         split at e' <;> omega
-  have okF := PFm_ok md na nt s₀ (k0' + k1') e₂ b₁ x₁ { b₂ with stack := [0] } hB1.next hB1.nsz
-  have hAFm := asimF_mode md hAF hra0x hin
-  have hTsub : ∀ j, (PFm md na nt s₀ (k0' + k1') e₂ b₁ x₁ { b₂ with stack := [0] }).T j →
+  have okF := PFm_ok md na nt s₀ (k0' + k1') e₂ b₁ x₁ { b₂ with stack := s₀.stack } hB1.next hB1.nsz
+  have hAFm := asimF_mode md hAF hin
+  have hTsub : ∀ j, (PFm md na nt s₀ (k0' + k1') e₂ b₁ x₁ { b₂ with stack := s₀.stack }).T j →
       j = s₀.groups.size ∨ j = 0 := by
     intro j hj
-    rcases hj with ⟨_, hj⟩ | hj
-    · exact .inl hj
-    · exact .inr hj
-  have hSS : SSim (PFm md na nt s₀ (k0' + k1') e₂ b₁ x₁ { b₂ with stack := [0] }) ⟨[], F, true, b₂.rowIds⟩ x₁
-      { b₂ with stack := [0] } := by
+    exact hj.2
+  have hSS : SSim (PFm md na nt s₀ (k0' + k1') e₂ b₁ x₁ { b₂ with stack := s₀.stack }) ⟨[], F, true, b₂.rowIds⟩ x₁
+      { b₂ with stack := s₀.stack } := by
     constructor
-    · show [0] = x₁.stack.map (shiftFrom (s₀.groups.size + 1) 1) ++ []
-      rw [hx1stk]
-      show [0] = [shiftFrom _ _ 0] ++ []
-      rw [shiftFrom_lt (by omega)]; rfl
+    · show s₀.stack = x₁.stack.map (shiftFrom (s₀.groups.size + 1) 1) ++ []
+      rw [hx1stk, List.append_nil, map_eq_self (fun b hb => shiftFrom_lt (Nat.lt_succ_of_lt (hg.sb.lt hb)))]
     · intro _ _; trivial
     · exact .inl rfl
     · intro _ _; trivial
-    · rw [hx1stk]; exact List.pairwise_singleton _ _
+    · rw [hx1stk]
+      cases hmd : md with
+      | false => rw [hstkA hmd]; exact List.pairwise_singleton _ _
+      | true =>
+        refine hg.ss.imp ?_
+        intro a b _ ht
+        exact Bool.noConfusion (show true = false from ht.1)
     · intro id j hidF hl
       rw [hxr] at hl
       have hjlt := hg.rv _ (lookupIn_mem hl)
@@ -458,28 +473,30 @@ theorem insert_twin_nodes (md : Bool) (na nt : List Str) (pre post rest : List E
     · intro _ _; trivial
   have hxG : s₀.groups.size < x₁.groups.size := by have := hs.x1groups; have := hB1.gsz; omega
   have hcl := appendGroup_rel okF (X := ⟨[], F, true, b₂.rowIds⟩) ⟨hAFm, hSS⟩ (g := s₀.groups.size) r.rowId trivial hxG
-    (fun ht => ⟨fun b hb => by rw [hx1stk] at hb; injection hb with hb; subst hb; exact .inr rfl,
+    (fun ht => ⟨fun b hb => by
+        rw [hx1stk, hstkA ht.1] at hb; injection hb with hb; subst hb; exact ⟨ht.1, .inr rfl⟩,
       fun hne => by
-        rcases ht with ⟨hm, _⟩ | h0
-        · rcases hFr hm with h | h
-          · exact absurd h hne
-          · exact h
-        · have := hg.pos; omega⟩)
-  have hγG : (PFm md na nt s₀ (k0' + k1') e₂ b₁ x₁ { b₂ with stack := [0] }).γ s₀.groups.size = s₀.groups.size :=
+        rcases hFr ht.1 with h | h
+        · exact absurd h hne
+        · exact h⟩)
+  have hγG : (PFm md na nt s₀ (k0' + k1') e₂ b₁ x₁ { b₂ with stack := s₀.stack }).γ s₀.groups.size = s₀.groups.size :=
     shiftFrom_lt (Nat.lt_succ_self _)
   rw [hγG] at hcl
   obtain ⟨hSZ, _, _, _, _, _, _, hmrz⟩ := hcl () z₁ () z₂ hApp₁ hApp₂
   -- the rows after the block
-  have hTop : TopInv (PFm md na nt s₀ (k0' + k1') e₂ b₁ x₁ { b₂ with stack := [0] }) (!md) 0 z₁ := by
-    refine ⟨fun hm => ?_, fun b hb => by simp at hb, hgz.sb, hgz.rv⟩
-    have hmd : md = true := by cases md <;> simp_all
-    refine (hmrz ?_).1
-    intro ht
-    rcases ht with ⟨hm', _⟩ | h0
-    · rw [hmd] at hm'; cases hm'
-    · have := hg.pos; omega
-  have hSF := steps_top okF (X := ⟨[], F, true, b₂.rowIds⟩) rfl post (!md) 0 z₁ z₂ hav hid_post hSZ hTop
-    (fun hop => hnl hop) () f₁ () f₂ hpost₁ hpost₂
+  have hSF : Sim (PFm md na nt s₀ (k0' + k1') e₂ b₁ x₁ { b₂ with stack := s₀.stack }) ⟨[], F, true, b₂.rowIds⟩ f₁ f₂ := by
+    cases hmd : md with
+    | false =>
+      have hTop : TopInv (PFm md na nt s₀ (k0' + k1') e₂ b₁ x₁ { b₂ with stack := s₀.stack }) true 0 z₁ :=
+        ⟨fun hm => Bool.noConfusion hm, fun b hb => by simp at hb, hgz.sb, hgz.rv⟩
+      have := steps_top okF (X := ⟨[], F, true, b₂.rowIds⟩) rfl post true 0 z₁ z₂ (havA hmd) hid_post hSZ hTop
+        (fun hop => by rw [hmd] at hop; exact Bool.noConfusion hop) () f₁ () f₂ hpost₁ hpost₂
+      rw [hmd] at this; exact this
+    | true =>
+      have := steps_open okF (X := ⟨[], F, true, b₂.rowIds⟩) rfl
+        (fun j hj => by rw [hmd] at hj; exact Bool.noConfusion hj.1) post z₁ z₂ (havB hmd) hid_post hSZ hgz.sb hgz.rv
+        (fun _ => hnl hmd) () f₁ () f₂ hpost₁ hpost₂
+      rw [hmd] at this; exact this
   -- the emitted nodes
   have hgx : ∃ ps', f₂.groups[s₀.groups.size + 1]? = some (.noop ps' none) := by
     refine ⟨ps, ?_⟩
